@@ -60,6 +60,9 @@ pub struct Profile {
     pub removals: u64,
     /// coins_per_byte drawn finely (150..420) so that the minimum ADA of ordinary outputs lands on the 2^16 coin-width edge
     pub fine_cpb: u64,
+    /// adaptive boundary worlds: run the session once, then move one offered amount so that the last
+    /// (change) output's coin lands just above a CBOR width edge (DESIGN §3.2)
+    pub adaptive: u64,
 }
 
 impl Profile {
@@ -103,6 +106,7 @@ impl Profile {
             fine_value_limit: 0,
             removals: 80,
             fine_cpb: 0,
+            adaptive: 0,
         }
     }
 }
@@ -1018,7 +1022,48 @@ pub fn generate(seed: u64, tier: Tier, p: &Profile) -> Scenario {
     }
     let rng = g.rng_plan(seed);
     let hash_seed = Rng::stream(seed, 3).next();
-    Scenario { knobs: g.k.clone(), world: g.w, ops, rng, hash_seed, profile: format!("wallet/{}", p.name) }
+    let adaptive = pm(&mut g.r, p.adaptive) && !off.is_empty();
+    let mut sc = Scenario { knobs: g.k.clone(), world: g.w, ops, rng, hash_seed, profile: format!("wallet/{}", p.name) };
+    if adaptive && g.r.chance(1, 2) {
+        // first measurement: choose coins_per_byte so that the minimum ADA of the last (change) output
+        // sits just below the 2^16 coin-width edge; only ever lowered, so requested outputs stay valid
+        let probe = exec::run(&sc);
+        if let Some(b) = probe.built.iter().rev().find(|b| b.full) {
+            let outs = b.body.outputs();
+            if outs.len() > 0 {
+                let last = outs.get(outs.len() - 1);
+                let coin = u64::from(last.amount().coin());
+                let coin_len: u64 = if coin < 24 { 1 } else if coin <= 0xff { 2 } else if coin <= 0xffff { 3 } else if coin <= 0xffff_ffff { 5 } else { 9 };
+                // size of that output if its coin needed 3 bytes (a value below 2^16)
+                let size = last.to_bytes().len() as u64 - coin_len + 3;
+                let want = (65535 / (160 + size)).saturating_sub(g.r.below(2));
+                if want >= 1 && want <= sc.knobs.cpb {
+                    sc.knobs.cpb = want;
+                    sc.profile.push_str("/adaptive-cpb");
+                }
+            }
+        }
+    }
+    if adaptive {
+        // measure with a throw-away run, then place the change coin at / just above a width edge
+        let probe = exec::run(&sc);
+        if let Some(b) = probe.built.iter().rev().find(|b| b.full) {
+            let outs = b.body.outputs();
+            if outs.len() > 0 {
+                let c_last = u64::from(outs.get(outs.len() - 1).amount().coin()) as i128;
+                let edge: i128 = if sc.knobs.cpb <= 409 { *g.r.pick(&[65536i128, 65536, 256]) } else { *g.r.pick(&[4294967296i128, 65536]) };
+                let target = edge + g.r.below(2 * sc.knobs.cpb + 4) as i128 - 2;
+                let delta = target - c_last;
+                let u = off[0];
+                let nc = sc.world.utxos[u].coin as i128 + delta;
+                if nc > 0 && nc < (1i128 << 62) {
+                    sc.world.utxos[u].coin = nc as u64;
+                    sc.profile.push_str("/adaptive");
+                }
+            }
+        }
+    }
+    sc
 }
 
 // ------------------------------------------------------------------ signing
